@@ -396,6 +396,11 @@ def addRoot (cfg : Cfg) (x : α) (r : Node α) (pos : Pos) : Node α × Pos :=
 def destroyInternal (items : List α) (cs : List (Node α)) (i : Nat) (destroyRight : Bool) : Node α :=
   inner (items.eraseIdx i) (cs.eraseIdx (if destroyRight then i + 1 else i))
 
+/-- assign item `i` of a node (`ItemTraits::AssignKey` in `ResetKey`) -/
+def setItem (i : Nat) (x : α) : Node α → Node α
+  | leaf cap items => leaf cap (items.set i x)
+  | inner items cs => inner (items.set i x) cs
+
 /-- remove item `i` of a node in place (`Node::Remove` on a leaf) -/
 def removeItem (i : Nat) : Node α → Node α
   | leaf cap items => leaf cap (items.eraseIdx i)
@@ -472,7 +477,31 @@ def tryMerge (cfg : Cfg) (items : List α) (cs : List (Node α)) (i : Nat) (save
                saved.map (mergeSaved i n1.count))
   | _, _, _ => none
 
-/-- the loop of `pvRebalance(node, savedNode, fast)` (TreeSet.h:1520-1534) for the node at `path` below `n`, unwound
+/-- the part of the saved node's path that lies below child `c` (if it does) -/
+def savedBelow (saved : Option (List Nat)) (c : Nat) : Option (List Nat) :=
+  match saved with
+  | some (j :: s) => if j = c then some s else none
+  | _ => none
+
+/-- the saved node's path after the subtree of child `c` reported `savedC` for its part -/
+def savedLift (saved : Option (List Nat)) (c : Nat) (savedC : Option (List Nat)) : Option (List Nat) :=
+  match saved with
+  | some (j :: s) => if j = c then savedC.map (c :: ·) else some (j :: s)
+  | o => o
+
+/-- one round of the loop of `pvRebalance(node, savedNode, fast)` (TreeSet.h:1531-1536) in `parentNode = inner items cs`
+    for its child `c`: `!pvRebalance(parentNode, c + 1, saved) && !pvRebalance(parentNode, c, saved) && fast` decides
+    whether the loop stops; the Boolean is "goes on" -/
+def rebStep (cfg : Cfg) (fast : Bool) (items : List α) (cs : List (Node α)) (c : Nat) (saved : Option (List Nat)) :
+    Node α × Option (List Nat) × Bool :=
+  match tryMerge cfg items cs c saved with
+  | some (n', saved') => (n', saved', true)
+  | none =>
+    match (if c > 0 then tryMerge cfg items cs (c - 1) saved else none) with
+    | some (n', saved') => (n', saved', true)
+    | none => (inner items cs, saved, !fast)
+
+/-- the loop of `pvRebalance(node, savedNode, fast)` (TreeSet.h:1523-1543) for the node at `path` below `n`, unwound
     bottom-up. `saved` = path of the saved node when it lies below `n`. The Boolean tells whether the loop is still
     running when it leaves `n` upwards. -/
 def rebAux (cfg : Cfg) (fast : Bool) : Node α → List Nat → Option (List Nat) → Node α × Option (List Nat) × Bool
@@ -482,26 +511,11 @@ def rebAux (cfg : Cfg) (fast : Bool) : Node α → List Nat → Option (List Nat
     match cs[c]? with
     | none => (inner items cs, saved, false)
     | some ch =>
-      match rebAux cfg fast ch p (match saved with
-          | some (j :: s) => if j = c then some s else none
-          | _ => none) with
-      | (ch', savedC, goOn) =>
-        if goOn then
-          match tryMerge cfg items (cs.set c ch') c (match saved with
-              | some (j :: s) => if j = c then savedC.map (c :: ·) else some (j :: s)
-              | o => o) with
-          | some (n', saved') => (n', saved', true)
-          | none =>
-            match (if c > 0 then tryMerge cfg items (cs.set c ch') (c - 1) (match saved with
-                | some (j :: s) => if j = c then savedC.map (c :: ·) else some (j :: s)
-                | o => o) else none) with
-            | some (n', saved') => (n', saved', true)
-            | none => (inner items (cs.set c ch'), (match saved with
-                | some (j :: s) => if j = c then savedC.map (c :: ·) else some (j :: s)
-                | o => o), !fast)
-        else (inner items (cs.set c ch'), (match saved with
-            | some (j :: s) => if j = c then savedC.map (c :: ·) else some (j :: s)
-            | o => o), false)
+      if (rebAux cfg fast ch p (savedBelow saved c)).2.2 then
+        rebStep cfg fast items (cs.set c (rebAux cfg fast ch p (savedBelow saved c)).1) c
+          (savedLift saved c (rebAux cfg fast ch p (savedBelow saved c)).2.1)
+      else (inner items (cs.set c (rebAux cfg fast ch p (savedBelow saved c)).1),
+            savedLift saved c (rebAux cfg fast ch p (savedBelow saved c)).2.1, false)
 
 /-- the root-collapse loop at the top of `pvRebalance` (TreeSet.h:1513-1522): an empty internal root is replaced by its
     only child. `saved` (a leaf path) loses its leading 0, and so does `path`; when the node itself is the collapsed
@@ -803,12 +817,15 @@ def add (cfg : Cfg) (t : Tree α) (pos : Pos) (x : α) : Tree α × Pos :=
   | none => ({ root := some (leaf (leafCap cfg 0 0) [x]), count := t.count + 1 }, ⟨[], 0⟩)
   | some r => ({ root := some (addRoot cfg x r pos).1, count := t.count + 1 }, (addRoot cfg x r pos).2)
 
+/-- `!IsLess(GetKey(*prevIter), key)` for `prevIter = std::prev(iter)` -/
+def prevNotLess (t : Tree α) (pos : Pos) (x : α) : Bool :=
+  match t.elemAt? (t.prev pos) with
+  | some y => !lt y x
+  | none => false
+
 /-- `pvInsert` (TreeSet.h:1188-1200): upper bound; for unique keys the predecessor decides whether the key is present -/
 def insert (cfg : Cfg) (t : Tree α) (x : α) : Tree α × Pos × Bool :=
-  if !cfg.multi && upperBound lt cfg t x ≠ t.beginPos &&
-      (match t.elemAt? (t.prev (upperBound lt cfg t x)) with
-       | some y => !lt y x
-       | none => false)
+  if !cfg.multi && decide (upperBound lt cfg t x ≠ t.beginPos) && prevNotLess lt t (upperBound lt cfg t x) x
   then (t, t.prev (upperBound lt cfg t x), false)
   else ((add cfg t (upperBound lt cfg t x) x).1, (add cfg t (upperBound lt cfg t x) x).2, true)
 
@@ -874,9 +891,7 @@ where
 /-- `ResetKey(iter, key)`: the item is assigned in place -/
 def resetKey (t : Tree α) (pos : Pos) (x : α) : Tree α :=
   match t.root with
-  | some r => { t with root := some (modifyAt (fun n => match n with
-      | leaf cap is => leaf cap (is.set pos.idx x)
-      | inner is cs => inner (is.set pos.idx x) cs) r pos.path) }
+  | some r => { t with root := some (modifyAt (setItem pos.idx x) r pos.path) }
   | none => t
 
 /-- `Insert(begin, end)` (TreeSet.h:734-759) with its "right after the previous one" shortcut -/
